@@ -14,6 +14,7 @@ import errno
 import random
 import selectors
 import socket
+import time
 import sys
 
 MSS_CHOICES = (1, 2, 3, 7, 64, 536, 1460, 8192, 65536)
@@ -36,6 +37,17 @@ class _VSelector:
     def select(self, timeout=None):
         loop = self._loop
         loop.iterations += 1
+        # CPU seconds (of this thread: load on the machine does not count) that the callbacks of one loop iteration took
+        t = time.thread_time()
+        if loop._iter_cpu_mark is not None and t - loop._iter_cpu_mark > loop.worst_iteration_cpu:
+            loop.worst_iteration_cpu = t - loop._iter_cpu_mark
+        try:
+            return self._select(timeout)
+        finally:
+            loop._iter_cpu_mark = time.thread_time()
+
+    def _select(self, timeout=None):
+        loop = self._loop
         if loop.iterations > loop.max_iterations:
             raise SimDeadlock(f"iteration budget {loop.max_iterations} exhausted (livelock?)")
         events = self._real.select(0)
@@ -60,6 +72,8 @@ class SimLoop(asyncio.SelectorEventLoop):
         self.iterations = 0
         self.max_iterations = 5_000_000
         self._exec_outstanding = 0
+        self._iter_cpu_mark = None
+        self.worst_iteration_cpu = 0.0
         self.net = None
 
     def time(self):
